@@ -3,6 +3,7 @@ package main
 import (
 	"fmt"
 	"os"
+	"sort"
 	"time"
 	"go/constant"
 	"go/token"
@@ -137,9 +138,15 @@ func (x *Exec) choose(n int, cons func(i int) *Term) int {
 		x.afterDecision()
 		return i
 	}
+	if n > 4096 {
+		panic(abortPath{"case split over more than 4096 values (a symbolic size or index is not bounded by the harness)", false})
+	}
 	first := -1
 	var firstModel map[*Term]uint64
 	for i := 0; i < n; i++ {
+		if i%128 == 127 && !x.deadline.IsZero() && time.Now().After(x.deadline) {
+			panic(timeoutAbort{})
+		}
 		c := cons(i)
 		ok, m := x.feas(c)
 		if !ok {
@@ -314,7 +321,8 @@ func (x *Exec) branch(c *Term) bool {
 	return i == 0
 }
 
-// concretize a bit-vector term to an int in [lo,hi] (forking); out-of-range is reported via oob()
+// concretize a bit-vector term to an int in [lo,hi] (forking); out-of-range is reported via oob().
+// The decision recorded for a value v is v-lo, whatever strategy found it.
 func (x *Exec) concretize(t *Term, lo, hi int, signed bool) int {
 	if t.isC {
 		if signed {
@@ -323,8 +331,48 @@ func (x *Exec) concretize(t *Term, lo, hi int, signed bool) int {
 		return int(t.c)
 	}
 	n := hi - lo + 1
-	i := x.choose(n, func(i int) *Term { return bvcmp("=", t, BV(uint64(int64(lo+i)), t.sort.Width)) })
-	return lo + i
+	eq := func(i int) *Term { return bvcmp("=", t, BV(uint64(int64(lo+i)), t.sort.Width)) }
+	if n <= 32 || len(x.decision) < len(x.prefix) {
+		return lo + x.choose(n, eq)
+	}
+	// large range: discover the feasible values through solver models instead of trying every value
+	var found []int
+	excl := Bool(true)
+	inRange := And(bvcmp("bvsle", BV(uint64(int64(lo)), t.sort.Width), t), bvcmp("bvsle", t, BV(uint64(int64(hi)), t.sort.Width)))
+	if !signed {
+		inRange = bvcmp("bvule", t, BV(uint64(int64(hi)), t.sort.Width))
+	}
+	for len(found) <= 64 {
+		sat, m, unk := x.solver.askValue(x.pc, And(inRange, excl), t)
+		if unk {
+			panic(abortPath{"solver unknown while enumerating the values of a symbolic size", false})
+		}
+		if !sat {
+			break
+		}
+		v := int(sext(m, t.sort.Width))
+		if !signed {
+			v = int(m)
+		}
+		found = append(found, v)
+		excl = And(excl, Not(bvcmp("=", t, BV(m, t.sort.Width))))
+	}
+	if len(found) > 64 {
+		panic(abortPath{"a symbolic size or index takes more than 64 values (not bounded by the harness)", false})
+	}
+	if len(found) == 0 {
+		panic(abortPath{"no feasible outcome", true})
+	}
+	sort.Ints(found)
+	for _, v := range found[1:] {
+		alt := append(append([]int{}, x.decision...), v-lo)
+		x.work = append(x.work, workItem{alt, nil})
+	}
+	x.decision = append(x.decision, found[0]-lo)
+	x.addPC(eq(found[0] - lo))
+	x.res.Decisions++
+	x.afterDecision()
+	return found[0]
 }
 
 // ---------- type helpers ----------
